@@ -36,6 +36,9 @@ TvInit == [robs |-> <<>>,         \* reader -> observation at open
            run |-> 0,             \* number of the run (Reset events)
            pending |-> {},        \* files whose Persist is in flight: <<kind, id>>
            mem |-> FALSE,         \* in-memory directory (no durability clauses)
+           free |-> FALSE,        \* free-running execution: events of different goroutines that are not ordered by a
+                                  \* lock (handle closes vs. removals) may be logged in either order, so the clauses
+                                  \* that relate them are not evaluated
            strictdiv |-> 0,
            lastAckLen |-> 0,
            opened |-> FALSE,
@@ -90,13 +93,13 @@ StateClauses ==
        [] c = "C03_DiskIsPrefix" -> ~tv.mem /\ ~C03_DiskIsPrefix
        [] c = "C03_EveryLoadableIsPrefix" -> ~tv.mem /\ ~C03_EveryLoadableIsPrefix
        [] c = "C03_Recoverable" -> ~tv.mem /\ ~C03_Recoverable
-       [] c = "C04_NoUseAfterClose" -> ~TraceNoUseAfterClose
+       [] c = "C04_NoUseAfterClose" -> ~tv.free /\ ~TraceNoUseAfterClose
        [] c = "C05_RealTime" -> ~C05_RealTime
        [] c = "C05_ReturnedApplied" -> ~C05_ReturnedApplied
        [] c = "C11_Retained" -> ~tv.mem /\ ~C11_Retained
        [] c = "C11_AtLeastN" -> ~tv.mem /\ ~C11_AtLeastN
        [] c = "C11_RootFiles" -> ~tv.mem /\ ~C11_RootFiles
-       [] c = "C11_OpenHandlesHaveFiles" -> ~tv.mem /\ ~C11_OpenHandlesHaveFiles
+       [] c = "C11_OpenHandlesHaveFiles" -> ~tv.mem /\ ~tv.free /\ ~C11_OpenHandlesHaveFiles
        [] c = "C11_HandlesClosedOnce" -> ~TraceHandles
        [] OTHER -> FALSE}
 
@@ -123,12 +126,12 @@ TReset ==
   /\ applied' = <<>> /\ epochLen' = (0 :> 0) /\ acked' = {} /\ cbAcked' = {} /\ batchOf' = <<>>
   /\ retBefore' = <<>> /\ errd' = {}
   /\ cnt' = [crashes |-> 0, merges |-> 0, faults |-> 0, ropens |-> 0, asyncErrs |-> 0, snapsDone |-> 0]
-  /\ tv' = [TvInit EXCEPT !.run = Ev.run, !.mem = Ev.mem]
+  /\ tv' = [TvInit EXCEPT !.run = Ev.run, !.mem = Ev.mem, !.free = Ev.free]
   /\ viol' = viol
 
 TReset0 == \* Reset is the first line: Init already holds
   /\ l = 1 /\ N >= 1 /\ TraceLog[1].ev = "Reset" /\ l' = 2
-  /\ tv' = [TvInit EXCEPT !.run = TraceLog[1].run, !.mem = TraceLog[1].mem]
+  /\ tv' = [TvInit EXCEPT !.run = TraceLog[1].run, !.mem = TraceLog[1].mem, !.free = TraceLog[1].free]
   /\ life' = [LifeInit EXCEPT !.up = FALSE, !.lock = FALSE]
   /\ UNCHANGED <<root, nextEpoch, nextSeg, nextUid, nextH, cl, pend, cbs, ps, mg, fsnp, fseg, pol, snaps, inst,
                  rd, applied, epochLen, acked, cbAcked, batchOf, retBefore, errd, cnt, viol>>
@@ -348,7 +351,7 @@ TRemoveEnd ==
   /\ Judge(IF Ev.err # "" \/ tv.mem THEN {}   \* (the in-memory directory has no file locks; its buffers stay referenced)
            ELSE IF Ev.kind = ".snp"
                 THEN (IF \E i \in 1..Len(pol.live) : pol.live[i] = Ev.id THEN {"C11_retained_snapshot_removed"} ELSE {})
-                ELSE (IF InUse(Ev.id) THEN {"C11_removed_file_in_use"} ELSE {})
+                ELSE (IF InUse(Ev.id) /\ ~tv.free THEN {"C11_removed_file_in_use"} ELSE {})
                      \cup (IF Needed(Ev.id) THEN {"C11_removed_needed_segment"} ELSE {}))
 
 \* ---- readers ---------------------------------------------------------------
